@@ -198,6 +198,12 @@ func hasBuildIgnore(f *ast.File) bool {
 var statefulStd = map[string]bool{"hash.Hash": true, "hash.Hash32": true, "hash.Hash64": true, "bytes.Buffer": true, "strings.Builder": true, "rand.Rand": true,
 	"bufio.Reader": true, "bufio.Writer": true, "bufio.Scanner": true, "json.Encoder": true, "json.Decoder": true, "cipher.Stream": true, "cipher.BlockMode": true}
 
+// statefulCtor: constructors of the stateful standard-library types (for package-level variables declared without a type).
+var statefulCtor = map[string]bool{"bufio.NewReader": true, "bufio.NewReaderSize": true, "bufio.NewWriter": true, "bufio.NewWriterSize": true, "bufio.NewScanner": true, "bufio.NewReadWriter": true,
+	"bytes.NewBuffer": true, "bytes.NewBufferString": true, "bytes.NewReader": true, "strings.NewReader": true, "rand.New": true,
+	"sha256.New": true, "sha256.New224": true, "sha512.New": true, "sha512.New384": true, "sha512.New512_256": true, "sha512.New512_224": true, "sha1.New": true, "md5.New": true, "hmac.New": true,
+	"json.NewEncoder": true, "json.NewDecoder": true, "base64.NewEncoder": true, "base64.NewDecoder": true}
+
 func isStatefulType(e ast.Expr) bool {
 	if st, ok := e.(*ast.StarExpr); ok {
 		e = st.X
@@ -310,6 +316,15 @@ func initKind(e ast.Expr) int {
 		}
 		if at, ok := x.Fun.(*ast.ArrayType); ok { // []byte("...")
 			return typeKind(at)
+		}
+		if se, ok := x.Fun.(*ast.SelectorExpr); ok { // bufio.NewReaderSize(...), sha256.New(), ...
+			if id, ok := se.X.(*ast.Ident); ok && statefulCtor[id.Name+"."+se.Sel.Name] {
+				return 3
+			}
+		}
+	case *ast.UnaryExpr: // &bytes.Buffer{}
+		if cl, ok := x.X.(*ast.CompositeLit); ok && x.Op == token.AND && cl.Type != nil && isStatefulType(cl.Type) {
+			return 3
 		}
 	case *ast.BasicLit:
 		return 1
